@@ -383,3 +383,341 @@ fn c07_twin_must_fail() {
     core::mem::forget(out);
     core::mem::forget(c);
 }
+
+// ---------------------------------------------------------------------------------
+// C07: PeerFsm — collision handling and slot management (one step from an arbitrary
+// two-slot state satisfying the invariant)
+// ---------------------------------------------------------------------------------
+
+fn slot_state() -> State {
+    // a Connection held in a slot was created by on_connected and is therefore never in
+    // Idle/Connect/Active (on_connected moves it to OpenSent at once)
+    let s: u8 = kani::any();
+    kani::assume(s >= 3 && s <= 5);
+    State::try_from(s).unwrap()
+}
+
+fn slot_connection(f_local_id: u32, f_local_asn: u32, f_hold: u64, f_expected: u32) -> Connection {
+    let negotiated: u16 = kani::any();
+    let ka: u16 = kani::any();
+    Connection {
+        state: slot_state(),
+        local_asn: f_local_asn,
+        local_router_id: f_local_id,
+        local_holdtime: f_hold,
+        local_cap: Vec::new(),
+        expected_remote_asn: f_expected,
+        remote_asn: kani::any(),
+        remote_id: kani::any(),
+        remote_holdtime: kani::any(),
+        remote_cap: Vec::new(),
+        negotiated_holdtime: negotiated as u64,
+        keepalive_interval: ka as u64,
+    }
+}
+
+fn any_peer_fsm() -> PeerFsm {
+    let local_router_id: u32 = kani::any();
+    let local_asn: u32 = kani::any();
+    let hold: u16 = kani::any();
+    let expected: u32 = kani::any();
+    let active = if kani::any() {
+        Some(slot_connection(local_router_id, local_asn, hold as u64, expected))
+    } else {
+        None
+    };
+    let passive = if kani::any() {
+        Some(slot_connection(local_router_id, local_asn, hold as u64, expected))
+    } else {
+        None
+    };
+    PeerFsm {
+        active,
+        passive,
+        local_router_id,
+        local_asn,
+        local_cap: Vec::new(),
+        local_holdtime: hold as u64,
+        expected_remote_asn: expected,
+        send_max: FnvHashMap::default(),
+    }
+}
+
+fn advanced(s: State) -> bool {
+    matches!(s, State::OpenConfirm | State::Established)
+}
+
+/// the collision invariant of the statement
+fn inv(p: &PeerFsm) -> bool {
+    !(advanced(p.state(Role::Active)) && advanced(p.state(Role::Passive)))
+}
+
+fn slot_ok(p: &PeerFsm, r: Role) -> bool {
+    match p.connection(r) {
+        None => true,
+        Some(c) => matches!(c.state, State::OpenSent | State::OpenConfirm | State::Established),
+    }
+}
+
+#[derive(Default, Clone, Copy)]
+struct PSum {
+    n: usize,
+    own: Summary,          // outputs addressed to the calling role
+    other_n: usize,        // outputs addressed to the other role
+    other_cease: usize,    // SendMessage(Cease/collision) addressed to the other role
+    close: usize,
+    stop_active: usize,
+    idle_after_down: bool, // last own output is StateChanged(Idle)
+}
+
+fn psum(out: &Vec<PeerFsmOutput>, role: Role) -> PSum {
+    let mut s = PSum::default();
+    let mut i = 0;
+    while i < out.len() {
+        s.n += 1;
+        match &out[i] {
+            PeerFsmOutput::Connection(r, o) => {
+                if *r == role {
+                    add(&mut s.own, o);
+                    s.idle_after_down = matches!(o, Output::StateChanged(State::Idle));
+                } else {
+                    s.other_n += 1;
+                    if let Output::SendMessage(bgp::Message::Notification(
+                        Notification::CeaseConnectionCollision,
+                    )) = o
+                    {
+                        s.other_cease += 1;
+                    }
+                }
+            }
+            PeerFsmOutput::CloseConnection => s.close += 1,
+            PeerFsmOutput::StopActiveConnect => s.stop_active += 1,
+        }
+        i += 1;
+    }
+    s
+}
+
+// ---------------------------------------------------------------------------------
+// C08: hold / keepalive timing
+// ---------------------------------------------------------------------------------
+
+//@ id=C08 tier=quick cap=600
+//@ fn: fsm::Connection::on_open
+//@ bound: OPEN received in OpenSent for ALL pairs (local hold time in {0} U [3,65535], remote hold time in {0} U [3,65535]); unwind 8
+//@ desc: negotiated hold time = min(local, remote); keepalive = negotiated/3; both timers are armed iff the negotiated value is non-zero
+#[kani::proof]
+#[kani::unwind(8)]
+fn c08_negotiate() {
+    let mut c = any_connection();
+    c.state = State::OpenSent;
+    let lh: u16 = kani::any();
+    kani::assume(lh != 1 && lh != 2);
+    c.local_holdtime = lh as u64;
+    c.expected_remote_asn = 0;
+    let rh: u16 = kani::any();
+    kani::assume(rh != 1 && rh != 2);
+    let open = bgp::Open {
+        as_number: kani::any(),
+        holdtime: HoldTime::new(rh).unwrap(),
+        router_id: kani::any(),
+        capability: Vec::new(),
+    };
+    let out = c.on_open(open);
+    let s = summarize(&out);
+    let want = if lh < rh { lh } else { rh } as u64;
+    assert!(c.state == State::OpenConfirm);
+    assert!(c.negotiated_holdtime == want);
+    if want != 0 {
+        assert!(c.keepalive_interval == want / 3);
+        assert!(s.set_hold == Some(want) && s.n_set_hold == 1);
+        assert!(s.set_ka == Some(want / 3) && s.n_set_ka == 1);
+        assert!(want / 3 >= 1);
+    } else {
+        assert!(s.n_set_ka == 0);
+        // a zero SetHoldTimer (= disable, see the driver model below) is the only one allowed
+        assert!(s.n_set_hold == 0 || s.set_hold == Some(0));
+    }
+    kani::cover!(want == 0 && lh != 0);
+    kani::cover!(want == 3);
+    kani::cover!(want == 65535);
+    core::mem::forget(out);
+    core::mem::forget(c);
+}
+
+/// The driver's timer handling, mirrored from daemon/src/event/mod.rs apply_outputs /
+/// run_select (vcheck verifies that the mirrored source lines are still present):
+///   SetHoldTimer(n):      n == 0 -> hold deadline = never;  else deadline = now + n
+///   SetKeepaliveTimer(n): deadline = now + n
+///   deadline reached     -> Input::HoldTimerExpired / KeepaliveTimerExpired is fed back
+#[derive(Clone, Copy)]
+struct Timers {
+    hold: Option<u64>,
+    ka: Option<u64>,
+}
+
+fn apply_timers(t: &mut Timers, now: u64, out: &Vec<Output>) -> Summary {
+    let s = summarize(out);
+    // outputs are applied in order; the last Set* wins (summarize keeps the last value)
+    if s.n_set_hold > 0 {
+        let n = s.set_hold.unwrap();
+        t.hold = if n == 0 { None } else { Some(now + n) };
+    }
+    if s.n_set_ka > 0 {
+        t.ka = Some(now + s.set_ka.unwrap());
+    }
+    s
+}
+
+//@ id=C08 tier=quick cap=1200
+//@ fn: fsm::Connection::on_connected, on_open, on_keepalive, on_update, on_update_sent, on_keepalive_timer_expired, on_hold_timer_expired
+//@ bound: timed run of 5 events from a fresh connection: connect, OPEN (hold times symbolic in {0} U [3,65535] on both sides), KEEPALIVE, then 2 symbolic events out of {KEEPALIVE rx, UPDATE rx, UPDATE tx, keepalive-timer, time passes} with symbolic non-decreasing clock; unwind 8
+//@ desc: with the driver's timer model: the hold deadline always equals (time of last KEEPALIVE/UPDATE received) + negotiated, is moved by nothing else, and does not exist when the negotiated hold time is zero (the session then never dies of hold-timer expiry)
+#[kani::proof]
+#[kani::unwind(8)]
+fn c08_timed_run() {
+    let lh: u16 = kani::any();
+    kani::assume(lh != 1 && lh != 2);
+    let rh: u16 = kani::any();
+    kani::assume(rh != 1 && rh != 2);
+    let mut c = Connection::new(kani::any(), kani::any(), Vec::new(), lh as u64, 0);
+    let mut t = Timers { hold: None, ka: None };
+    let mut now: u64 = 0;
+
+    let out = c.on_connected();
+    apply_timers(&mut t, now, &out);
+    core::mem::forget(out);
+
+    let d1: u16 = kani::any();
+    now += d1 as u64;
+    kani::assume(t.hold.map_or(true, |d| now < d)); // the OPEN arrives before the OpenSent timer
+    let out = c.on_open(bgp::Open {
+        as_number: kani::any(),
+        holdtime: HoldTime::new(rh).unwrap(),
+        router_id: kani::any(),
+        capability: Vec::new(),
+    });
+    apply_timers(&mut t, now, &out);
+    core::mem::forget(out);
+    let neg = (if lh < rh { lh } else { rh }) as u64;
+    assert!(c.negotiated_holdtime == neg);
+
+    let d2: u16 = kani::any();
+    now += d2 as u64;
+    kani::assume(t.hold.map_or(true, |d| now < d));
+    let out = c.on_keepalive();
+    apply_timers(&mut t, now, &out);
+    core::mem::forget(out);
+    assert!(c.state == State::Established);
+    let mut last_rx = now;
+
+    // after the OPEN exchange: zero disables every timer
+    if neg == 0 {
+        assert!(t.hold.is_none() && t.ka.is_none());
+    } else {
+        assert!(t.hold == Some(last_rx + neg));
+    }
+
+    let mut i = 0;
+    while i < 2 {
+        let d: u16 = kani::any();
+        now += d as u64;
+        // the driver delivers HoldTimerExpired as soon as the deadline is reached: events that
+        // happen later than the deadline are not part of this run
+        kani::assume(t.hold.map_or(true, |dl| now < dl));
+        let ev: u8 = kani::any();
+        kani::assume(ev < 5);
+        let out = match ev {
+            0 => {
+                last_rx = now;
+                c.on_keepalive()
+            }
+            1 => {
+                last_rx = now;
+                c.on_update()
+            }
+            2 => c.on_update_sent(),
+            3 => {
+                kani::assume(t.ka == Some(now));
+                c.on_keepalive_timer_expired()
+            }
+            _ => Vec::new(),
+        };
+        let s = apply_timers(&mut t, now, &out);
+        core::mem::forget(out);
+        assert!(s.session_down == 0 && c.state == State::Established);
+        if neg == 0 {
+            assert!(t.hold.is_none());
+        } else {
+            // deadline = last receipt + negotiated, whatever else happened
+            assert!(t.hold == Some(last_rx + neg));
+        }
+        i += 1;
+    }
+    // expiry tears the session down exactly when nothing was received for `neg` seconds
+    if let Some(dl) = t.hold {
+        assert!(dl == last_rx + neg && neg != 0);
+        let out = c.on_hold_timer_expired();
+        let s = summarize(&out);
+        assert!(s.session_down == 1 && s.down_hold);
+        core::mem::forget(out);
+    }
+    kani::cover!(neg == 0 && lh != 0);
+    kani::cover!(neg == 0 && lh == 0);
+    kani::cover!(neg != 0 && last_rx > 0);
+    core::mem::forget(c);
+}
+
+//@ id=C08 tier=thorough cap=600 expect=fail
+//@ fn: fsm::Connection::on_keepalive
+//@ bound: as c08_negotiate
+//@ desc: vacuity twin - claims KEEPALIVE never re-arms the hold timer; must be refuted
+#[kani::proof]
+#[kani::unwind(8)]
+fn c08_twin_must_fail() {
+    let mut c = any_connection();
+    c.state = State::Established;
+    let out = c.on_keepalive();
+    let s = summarize(&out);
+    assert!(s.n_set_hold == 0);
+    core::mem::forget(out);
+    core::mem::forget(c);
+}
+
+//@ id=C07 tier=quick cap=600
+//@ fn: fsm::PeerFsm::check_collision, fsm::PeerFsm::collision_winner, fsm::PeerFsm::close_connection
+//@ bound: ANY two-slot PeerFsm state in which the calling role's connection has just entered OpenConfirm (other slot: empty / OpenSent / OpenConfirm / Established), identifiers full 32-bit; unwind 8
+//@ desc: collision resolution called directly (fallback for PeerFsm::process, whose Output moves CBMC cannot finish): Established survives a newcomer; otherwise the connection initiated by the higher identifier survives; the loser's slot is freed; afterwards at most one connection is in OpenConfirm|Established
+#[kani::proof]
+#[kani::unwind(8)]
+fn c07_collision_direct() {
+    let mut p = any_peer_fsm();
+    let role = any_role();
+    let other = role.other();
+    kani::assume(p.connection(role).is_some());
+    kani::assume(p.state(role) == State::OpenConfirm);
+    let pre_other = p.state(other);
+    let other_present = p.connection(other).is_some();
+    let local_id = p.local_router_id;
+    let rid = p.connection(role).unwrap().remote_id;
+    let loser = p.check_collision(role);
+    assert!(inv(&p));
+    if !other_present || !advanced(pre_other) {
+        assert!(loser.is_none());
+        assert!(p.state(role) == State::OpenConfirm && p.state(other) == pre_other);
+    } else if pre_other == State::Established {
+        assert!(loser == Some(role));
+        assert!(p.connection(role).is_none() && p.state(other) == State::Established);
+    } else if local_id != rid {
+        let survivor = if local_id > rid { Role::Active } else { Role::Passive };
+        assert!(loser == Some(survivor.other()));
+        assert!(p.state(survivor) == State::OpenConfirm);
+        assert!(p.connection(survivor.other()).is_none());
+    } else {
+        assert!(loser.is_some());
+    }
+    kani::cover!(loser == Some(role) && pre_other == State::OpenConfirm);
+    kani::cover!(loser == Some(other));
+    kani::cover!(loser.is_none() && other_present);
+    core::mem::forget(p);
+}
